@@ -122,7 +122,9 @@ def handlePhase (st : DState) (op : String) (j : Json) : Except String (Ledger √
         [s!"C09/independence| instruction {k} of the phase is accepted when it is applied alone to the same state; in the phase it did not take effect although no instruction before it did: a rejected instruction for another vehicle disturbed it"]
       else []
     let (ledger', lv) := if probe then (st.ledger, []) else st.ledger.phase pre post evs
-    let fifo := if op == "update" then viol18Step env pre post ++ viol04Move env.isEmpty pre post ++ viol18Observed env st.joined pre post else []
+    let crow : List (VehicleId √ó Rat) ‚Üê optField j "crow" []
+    let fifo := if op == "update" then viol18Step env pre post ++ viol04Move env.isEmpty pre post ++ viol18Observed env st.joined pre post ++
+      viol06Displacement pre post crow ++ viol06Stuck env.isEmpty pre post else []
     let acct := if probe then [] else viol19Step pre post evs
     let mon := monitorAll env post ++ viol04 cap post ++ viol04Step pre post ++ viol05Step isEl pre post evs ++ single ++ indep ++ lv ++ fifo ++ acct
     pure (ledger', Json.mkObj [("diff", strs d), ("mon", strs mon)])
